@@ -233,3 +233,24 @@ Definition dispatch_verdict (h : list Z) (t : list (list Z)) : list Z :=
 (* the [saveload] domain (C14/C15): transcript of the extracted model *)
 Definition saveload_transcript (uuid : bool) (h : list Z) : list (list Z) :=
   SaveLoad.SLOps.sl_transcript uuid h.
+
+(* ------------------------------------------------------------------ unwind domain (C19) *)
+From SV Require Export Checkers.UnwindChk.
+
+(* the model's transcript with the default oracle (ascending hash order, resources by storage id) *)
+Definition unwind_transcript (h : list Z) : list (list Z) :=
+  if is_cs_history h then cs_transcript h else utr [] uw_init (decode_uhistory h).
+
+(* verdict on an implementation transcript [t]: the model's transcript run
+   with the oracle read off [t], preceded by one entry
+   [ equal; length of the model transcript; position of the first differing entry (-1: none) ] *)
+Fixpoint first_diff (a b : list (list Z)) (pos : Z) : Z :=
+  match a, b with
+  | [], [] => (-1)%Z
+  | x :: a', y :: b' => if zlist_eqb x y then first_diff a' b' (pos + 1)%Z else pos
+  | _, _ => pos
+  end.
+
+Definition unwind_verdict (h : list Z) (t : list (list Z)) : list (list Z) :=
+  let m := utr_guided h t in
+  [enc_bool (zlists_eqb m t); Z.of_nat (length m); first_diff m t 0%Z] :: m.
